@@ -1,18 +1,17 @@
 #!/bin/sh
-# tools/try_mutant.sh <patch.diff> <check> [<check> ...]
+# tools/try_mutant.sh <patch.diff> <check> [extra ./check args...]
 # Applies a seeded change to a scratch worktree of /repo's HEAD (never to /repo itself),
-# runs the named quick checks against it, removes the worktree. One RESULT line per check.
-P="$1"; shift
+# runs the named quick check against it, removes the worktree. One RESULT line.
+P="$1"; c="$2"; shift; shift
 W=/tmp/mrepo.$$
 git -C /repo worktree add -q --detach "$W" HEAD || exit 2
 cd "$W" || exit 2
-if ! git apply "$P"; then echo "RESULT patch=$P does-not-apply"; cd /; git -C /repo worktree remove --force "$W"; exit 2; fi
-for c in "$@"; do
-  t0=$(date +%s)
-  out=$(cd /verif && VERIF_REPO="$W" timeout 1500 ./check "$c" quick -no-evidence 2>&1); rc=$?
-  t1=$(date +%s)
-  nv=$(echo "$out" | grep -c '^VIOLATION')
-  echo "RESULT patch=$P check=$c exit=$rc violations=$nv secs=$((t1-t0))"
-  echo "$out" | grep '^  violated:' | cut -c1-200 | head -3
-done
+if ! git apply "$P" 2>/dev/null && ! git apply -3 "$P" 2>/dev/null && ! patch -p1 -s -F3 < "$P"; then echo "RESULT patch=$P does-not-apply"; cd /; git -C /repo worktree remove --force "$W"; exit 2; fi
+t0=$(date +%s)
+out=$(cd /verif && VERIF_REPO="$W" timeout 3000 ./check "$c" ${TIER:-quick} -no-evidence "$@" 2>&1); rc=$?
+t1=$(date +%s)
+nv=$(echo "$out" | grep -c '^VIOLATION')
+echo "RESULT patch=$P check=$c $* exit=$rc violations=$nv secs=$((t1-t0))"
+echo "$out" | grep '^  violated:' | cut -c1-200 | head -3
+[ -n "$SHOW" ] && echo "$out" | tail -${SHOW}
 cd /; git -C /repo worktree remove --force "$W"
